@@ -25,7 +25,7 @@ META = dict(
           "says (invariant + refinement, unbounded histories). The model is tied to the C++ by running the extracted model and "
           "the real Serial pool on the same histories and comparing offsets, sizes, counters and contents after every step.",
     note="Trusted: Coq kernel; the hand model (tie is differential, seeded); extraction; drivers; Z instead of 64-bit "
-         "arithmetic; slice offsets are non-negative (negative offsets belong to C02). The model describes the source after "
+         "arithmetic. The model describes the source after "
          "fixes/C03-1..3 and fixes/C04-1; the snapshot's behaviour is kept as the `pinned` variant with *_refuted theorems.",
     technique="Coq invariant + contents refinement over histories; extracted-model/implementation differential correspondence",
     design_ref="DESIGN.md section 5, C03")
@@ -48,7 +48,8 @@ def run(run, tier, seed, replay_case=None):
 
     rng = random.Random(seed * 7919 + 3)
     corpus = C.load_corpus(PROP)
-    n = 1500 if tier == "quick" else 30000
+    n = 1500 if tier == "quick" else 15000
+    n = int(os.environ.get("VERIF_N", n))            # smaller batches for seeded-bug trials on a loaded machine
     cases = list(corpus) + list(P.SEED_CASES) + P.gen_cases(rng, n, tier)
     if replay_case is not None:
         cases = [replay_case]
@@ -56,7 +57,7 @@ def run(run, tier, seed, replay_case=None):
     D = C.Differential(run, PROP, [impl], model, env, view=P.view_C03, signatures=SIGNATURES, keep_first=0,
                        model_desc="coq/C03/Model.v vs src/occa/internal/core/memoryPool.cpp (+ serial/memoryPool.cpp)")
     I, R, S = D.eval(cases)
-    D.judge(cases, I, R, S, proof_failures=pr["failures"])
+    D.judge(cases, I, R, S, proof_failures=pr["failures"], max_report=(3 if "VERIF_N" in os.environ else 12))
 
     cov = run.coverage
     cov["distinct_nontrivial"] = len(set(c for c in cases if P.nontrivial(c)))
@@ -70,7 +71,6 @@ def run(run, tier, seed, replay_case=None):
                      for name, ch in (("reserve", "r"), ("slice", "s"), ("release", "f"), ("write", "w"),
                                       ("resize", "z"), ("shrinkToFit", "k"), ("setAlignment", "a"))}
     run.assumptions = ["one Serial device and one pool per history; one occa::memory handle per reservation",
-                       "slice offsets are non-negative (negative offsets: C02)",
                        "the observation includes offsets, sizes, all four pool counters and both device counters, so a "
                        "change of placement policy is a correspondence break, not a silent pass"]
 
